@@ -213,7 +213,7 @@ def main(tier, replay=None):
     log(f"[C20] TLC generated {n_all} histories")
 
     # dependents
-    deps = cdb_corpus.generated_dependents(rng, 15 if tier == "quick" else 120) + cdb_corpus.corpus_dependents()
+    deps = cdb_corpus.generated_dependents(rng, 15 if tier == "quick" else 90) + cdb_corpus.corpus_dependents()
     for i, d in enumerate(deps):
         d["id"] = i
     kinds = sorted({k for d in deps for k in d["kinds"]})
